@@ -449,9 +449,11 @@ contract Coordinator.globalScrapeStatus
   ensures allEntriesWf(result)
   ensures forall h in active :: h in result
   modifies target.ScrapeStatus.* at {}, tkestack.io/kvass/pkg/scrape.StatisticsSeriesResult.* at {}, mapof(shardInfo.scraping) at {}, mapof(tkestack.io/kvass/pkg/scrape.StatisticsSeriesResult.MetricsTotal) at {}
-  loop 1 invariant ret != nil && fresh(ret) && allEntriesWf(ret)
+  loop 1 invariant[C19] @status_view_is_built_afresh ret != nil && fresh(ret)
+  loop 1 invariant allEntriesWf(ret)
   loop 1 invariant forall h in visited1 :: h in ret
-  loop 2 invariant ret != nil && fresh(ret) && allEntriesWf(ret)
+  loop 2 invariant[C19] @status_view_is_built_afresh ret != nil && fresh(ret)
+  loop 2 invariant allEntriesWf(ret)
   loop 2 invariant forall k in visited1 :: (k != h ==> k in ret)
 
 contract Coordinator.updateScrapeStatusShards
